@@ -491,6 +491,21 @@ def typing_rules(ck, F, E):
                 if sfx(cc[1], "ValueArray::create") or sfx(cc[1], "ValueArray::default_for_variable_and_dimensionality"):
                     if 1 in expr_params(cc[2][0]) and 1 in expr_params(strip_expr(b.expr(i.args[1]))):
                         ok = True
+        if not ok:
+            # `ValueArray::create(name.as_str(), ..).map(|array| { self.0.insert(name, array); })`
+            from lib import with_closures, resolve_captures
+            for cb in with_closures(F, b)[1:]:
+                for i in [c for c in cb.calls() if c.callee.endswith("HashMap::insert")]:
+                    key = resolve_captures(F, cb, cb.expr(i.args[1]))
+                    val = strip_expr(cb.expr(i.args[2]))
+                    if val == ("param", 1) and 1 in expr_params(key):
+                        for mc in b.calls():
+                            if mc.callee.split("::")[-1] == "map" and "Result" in mc.callee and mc.args:
+                                recv = strip_expr(b.expr(mc.args[0]))
+                                if recv[0] == "call" and (sfx(recv[1], "ValueArray::create") or
+                                                          sfx(recv[1], "ValueArray::default_for_variable_and_dimensionality")) and \
+                                        1 in expr_params(recv[2][0]):
+                                    ok = True
         ck.require(ok, "C16:TYPE:%s-same-name" % fn, "suffix typing",
                    "the array inserted under a name was created for that same name",
                    "%s inserts an array created for a different name than its key" % fn, b.span)
